@@ -10,7 +10,10 @@ Local Open Scope Z_scope.
 
 Inductive ev :=
 | EAns (req : Z) (kind : Z)     (* the backend of request req answers: 0 a resource, 1 an error, otherwise it closes the channel *)
-| ECancel.                      (* the caller's context ends *)
+| ECancel                       (* the caller's context ends *)
+| EAnsCancel (req : Z) (kind : Z) (taken : bool).
+    (* the caller's context ends in the very instant in which the backend of req answers; taken = the manager took the
+       answer (observed: the runtime decides) *)
 
 Record mst := { waiting : list Z;     (* requests dispatched and not yet answered *)
                 got : list Z;         (* resources collected by Allocate: what it returns *)
@@ -44,20 +47,41 @@ Definition step (acc : list Z) (s : mst) (e : ev) : mst :=
           {| waiting := del r (waiting s); got := got s; handed := handed s; active := false; failed := failed s |}
       else s
   | ECancel => if active s then {| waiting := waiting s; got := got s; handed := handed s; active := false; failed := true |} else s
+  | EAnsCancel r k taken =>
+      if active s then
+        if mem r (waiting s) && taken && (k =? 0)
+        then (* an answer the manager took is returned, even though the call fails *)
+             {| waiting := del r (waiting s); got := got s ++ [rid acc r]; handed := handed s ++ [rid acc r];
+                active := false; failed := true |}
+        else {| waiting := del r (waiting s); got := got s; handed := handed s; active := false; failed := true |}
+      else {| waiting := del r (waiting s); got := got s; handed := handed s; active := false; failed := failed s |}
   end.
 
 Fixpoint seqZ (from : Z) (n : nat) : list Z := match n with O => [] | S n' => from :: seqZ (from + 1) n' end.
 
-(* dispatch: a request no backend accepts fails the call at once (nothing was answered yet) *)
-Definition init (acc : list Z) : mst :=
+(* dispatch, request by request: a request no backend accepts fails the call at once. `early` = a request whose backend
+   answers (a resource) while the dispatch loop is still busy with the next request (0 = none): the answer is taken in
+   and must be returned even if a later request then finds no backend *)
+Fixpoint first_zero (acc : list Z) (i : Z) : Z :=
+  match acc with [] => 0 | a :: r => if a =? 0 then i else first_zero r (i + 1) end.
+
+Definition early_ok (acc : list Z) (early : Z) : bool :=
+  let z := first_zero acc 1 in
+  (0 <? early) && (early <? Z.of_nat (length acc)) && ((z =? 0) || (early <? z)).
+
+Definition init (acc : list Z) (early : Z) : mst :=
+  let all := seqZ 1 (length acc) in
+  let e := early_ok acc early in
+  let w := if e then del early all else all in
+  let g := if e then [rid acc early] else [] in
   if existsb (Z.eqb 0) acc
-  then {| waiting := seqZ 1 (length acc); got := []; handed := []; active := false; failed := true |}
-  else settle {| waiting := seqZ 1 (length acc); got := []; handed := []; active := true; failed := false |}.
+  then {| waiting := w; got := g; handed := g; active := false; failed := true |}
+  else settle {| waiting := w; got := g; handed := g; active := true; failed := false |}.
 
 (* the caller's context always ends eventually *)
 Definition finish (s : mst) : mst := if active s then step [] s ECancel else s.
 
-Definition run (acc : list Z) (evs : list ev) : mst := finish (fold_left (step acc) evs (init acc)).
+Definition run (acc : list Z) (early : Z) (evs : list ev) : mst := finish (fold_left (step acc) evs (init acc early)).
 
 (* what the backends still count as the pod's after the daemon's roll-back (Release of what Allocate returned, when it failed) *)
 Definition owned_after (s : mst) : list Z :=
